@@ -8,8 +8,10 @@ import numpy as np
 
 
 def wcs_simple(rot_deg=0.0, cdelt=1e-3, proj='TAN', ctype=('RA', 'DEC'), crval=(40.0, 20.0), crpix=(50.0, 60.0), flip=False,
-               radesys=None, equinox=None):
-    """A celestial WCS: projection, rotation (PC matrix), scale, parity, axis types, reference value."""
+               radesys=None, equinox=None, encoding='cdelt_pc'):
+    """A celestial WCS: projection, rotation (PC matrix), scale, parity, axis types, reference value.  ``encoding``:
+    how the same linear transformation is written into the header -- 'cdelt_pc' (CDELT = (-s, s), PC = rotation), 'cd' (a CD
+    matrix, no CDELT), 'pc_flip' (CDELT = (s, s), the sign of the longitude axis inside the PC matrix)."""
     import math
     from astropy.wcs import WCS
     w = WCS(naxis=2)
@@ -18,9 +20,17 @@ def wcs_simple(rot_deg=0.0, cdelt=1e-3, proj='TAN', ctype=('RA', 'DEC'), crval=(
     w.wcs.crval = list(crval)
     w.wcs.crpix = list(crpix)
     sx = cdelt if flip else -cdelt
-    w.wcs.cdelt = [sx, cdelt]
     t = math.radians(rot_deg)
-    w.wcs.pc = [[math.cos(t), -math.sin(t)], [math.sin(t), math.cos(t)]]
+    pc = [[math.cos(t), -math.sin(t)], [math.sin(t), math.cos(t)]]
+    if encoding == 'cd':
+        w.wcs.cd = [[sx * pc[0][0], sx * pc[0][1]], [cdelt * pc[1][0], cdelt * pc[1][1]]]
+    elif encoding == 'pc_flip':
+        sg = sx / cdelt
+        w.wcs.cdelt = [cdelt, cdelt]
+        w.wcs.pc = [[sg * pc[0][0], sg * pc[0][1]], pc[1]]
+    else:
+        w.wcs.cdelt = [sx, cdelt]
+        w.wcs.pc = pc
     if radesys:
         w.wcs.radesys = radesys
         if radesys == 'FK4':
